@@ -6,6 +6,7 @@ import Driver.SExp
 import Driver.Decode
 import Driver.FilterEng
 import Driver.CacheEng
+import Driver.TreeEng
 open Driver
 
 partial def loopFilter (h : IO.FS.Stream) (out : IO.FS.Stream) (univ : List KC.Obj) : IO Unit := do
@@ -31,11 +32,24 @@ partial def loopCache (evMode : Bool) (h : IO.FS.Stream) (out : IO.FS.Stream) (s
     out.putStrLn "bad parse"
     loopCache evMode h out st
 
+partial def loopTree (h : IO.FS.Stream) (out : IO.FS.Stream) (st : TState) : IO Unit := do
+  let line ← h.getLine
+  if line.isEmpty then return ()
+  match parseLine line with
+  | some e =>
+    let (st', o) := treeLine st e
+    out.putStrLn o
+    loopTree h out st'
+  | none =>
+    out.putStrLn "bad parse"
+    loopTree h out st
+
 def main (args : List String) : IO UInt32 := do
   let stdin ← IO.getStdin
   let stdout ← IO.getStdout
   match args with
   | ["filter"] => loopFilter stdin stdout []; return 0
   | ["cache"] => loopCache false stdin stdout {}; return 0
+  | ["tree"] => loopTree stdin stdout {}; return 0
   | ["cache-events"] => loopCache true stdin stdout {}; return 0
   | _ => IO.eprintln "usage: kdriver <filter|cache>"; return 2
